@@ -32,6 +32,8 @@ THEOREMS = [
     "JanetModel.Props.C01.markSites_as_modelled",
     "JanetModel.Props.C01.gen_facts",
     "JanetModel.Props.C01.mark_typed_calls_acyclic",
+    "JanetModel.Props.C01.collect_preserves_env_mode",
+    "JanetModel.Props.C01.detach_iff_finished",
 ]
 H = os.path.join(VERIF, "harness/C01")
 SOURCES = [os.path.join(H, x) for x in ("gch.c", "w_ev.c", "w_net.c", "w_os.c", "w_filewatch.c")]
@@ -189,9 +191,11 @@ def _run(ctx, quick, broken, exes, driver, tmp, gen_info, only_replay):
         if not observes:
             for v in ("asan", "asan_debugstack"):
                 for s in beh:
+                    if quick and v == "asan" and s == "always":
+                        continue   # every-safepoint runs: plain (graph level) and asan_debugstack
                     jobs.append((g, Job(p, v, s, seed=rng.next() % 10**9, stack_kb=stack * 3)))
     # ---- generated programs
-    n_small, n_large = (40, 30) if quick else (600, 400)
+    n_small, n_large = (36, 24) if quick else (600, 400)
     light = bool(os.environ.get("C01_LIGHT"))   # development aid (mutation runs): catalogue + a few programs only
     if light:
         n_small, n_large = 12, 8
